@@ -35,7 +35,9 @@ def run(ctx: Ctx):
         if len(calls) != 1:
             raise AnalysisError(f"C09: {f.qualname} does not call _get_padding_buffers exactly once")
         b = bind_args(calls[0], gpb, False)
-        got = {p.name: u(a) for p, a, _ in b.pairs}
+        from sa.inline import Inliner
+        inl_f = Inliner(f.node)
+        got = {p.name: (inl_f.text(a) if f is pv and p.name in ("left_pad", "right_pad") else u(a)) for p, a, _ in b.pairs}
         if f is cbs:
             # roles by dataflow: left pad = max(-start, 0), right pad = max(end - lens, 0) with (start, end) the two
             # columns of `slices`
@@ -115,26 +117,28 @@ def run(ctx: Ctx):
     col.ob("G8", "S2", "_img.py::RandomShiftMode<=PadMode", set(rsm) <= set(padm),
            f"RandomShift accepts modes {rsm} but the padding kernel implements {padm}", "_img.py", 1,
            sample=dict(random_shift=rsm, pad=padm))
-    # the dispatch ends in else: raise
-    pm = parent_map(gpb.node)
-    last_else_raises = False
-    for n in own_nodes(gpb.node):
-        if isinstance(n, ast.If) and u(n.test).startswith("mode =="):
-            cur = n
-            while cur.orelse and len(cur.orelse) == 1 and isinstance(cur.orelse[0], ast.If):
-                cur = cur.orelse[0]
-            if cur.orelse and any(isinstance(x, ast.Raise) for x in cur.orelse):
-                last_else_raises = True
+    # an unknown mode is refused, every member is served: the kernel specialised on the mode (tests on `mode` folded) has an
+    # unconditional raise before its return exactly for a string outside the Literal - wherever the refusal is written
+    from sa.specialise import specialise
+
+    def _refuses(val):
+        node, _ = specialise(gpb.node, {"mode": val})
+        for st in node.body:
+            if isinstance(st, ast.Raise):
+                return True
+            if isinstance(st, ast.Return):
+                return False
+        return False
+    last_else_raises = _refuses("<no such mode>") and not any(_refuses(m) for m in padm)
     col.ob("G8", "S2", f"{rel}::_get_padding_buffers::unknown-mode-raises", last_else_raises,
            "an unknown padding mode does not raise", rel, gpb.line)
     # placeholders: under the mode for which the kernel returns the input itself as placeholder buffers, both
     # callers skip the buffer scatters
     placeholder_modes = set()
-    for n in own_nodes(gpb.node):
-        if isinstance(n, ast.Assign) and len(n.targets) == 2 and u(n.value) == gpb.params[0].name:
-            for t, pol in guards_of(pm, n):
-                if isinstance(t, ast.Compare) and u(t.left) == "mode" and pol:
-                    placeholder_modes.add(t.comparators[0].value)
+    for m_ in padm:
+        node_m, _ = specialise(gpb.node, {"mode": m_})
+        if any(isinstance(n, ast.Assign) and len(n.targets) == 2 and u(n.value) == gpb.params[0].name for n in node_m.body):
+            placeholder_modes.add(m_)
     col.ob("G8", "S2", f"{rel}::_get_padding_buffers::placeholder-modes", placeholder_modes == {"constant"},
            f"the kernel returns placeholder buffers for modes {sorted(placeholder_modes)}", rel, gpb.line)
     for f in (pv, cbs):
@@ -176,47 +180,66 @@ def run(ctx: Ctx):
            "RandomShift.forward does not pass self.training (the layer would shift in evaluation mode)", "_img.py", m.line)
 
     # ---- S4 random pad amounts: trunc(u * prop * len), u in [0, 1) -----------------------------------------------
-    steps = []
-    for n in own_nodes(rs.node):
-        if isinstance(n, (ast.Assign, ast.AugAssign)) and u(n.targets[0] if isinstance(n, ast.Assign) else n.target) == padname:
-            steps.append(n)
-    steps.sort(key=lambda n: n.lineno)
-    shape = []
-    for n in steps:
-        if isinstance(n, ast.Assign) and isinstance(n.value, ast.Call) and call_name(n.value) == "torch.stack":
-            els = n.value.args[0].elts if isinstance(n.value.args[0], (ast.List, ast.Tuple)) else []
-            okp = len(els) == 2 and all(isinstance(e, ast.BinOp) and isinstance(e.op, ast.Mult) for e in els) \
-                and [u(e.left) for e in els] == ["prop[0]", "prop[1]"] and len({u(e.right) for e in els}) == 1
-            shape.append("stack(prop[0]*len, prop[1]*len)" if okp else "stack(?)")
-        elif isinstance(n, ast.AugAssign) and isinstance(n.op, ast.Mult) and isinstance(n.value, ast.Call) \
-                and call_name(n.value) in ("torch.rand_like", "torch.rand"):
-            shape.append("*=rand")
-        elif isinstance(n, ast.Assign) and u(n.value) == f"{padname}.long()":
+    # decided on the expansion of the `pad` argument handed to pad_variable (temporaries and `*=` forward-substituted):
+    #   (stack([prop[0] * L, prop[1] * L]) * rand_like(..)).long()   with   L = in_lens.float()
+    from sa.inline import Inliner
+    inl_r = Inliner(rs.node, rdr)
+    pvc = [c for c in own_calls(rs.node) if call_name(c) == "pad_variable"]
+    shape, lsrc = ["?"], None
+    if len(pvc) == 1:
+        bb = bind_args(pvc[0], pv, False)
+        pe = inl_r.expand(bb.arg_for("pad"))
+        shape = []
+        cur = pe
+        if isinstance(cur, ast.Call) and isinstance(cur.func, ast.Attribute) and cur.func.attr == "long" and not cur.args:
             shape.append("long")
+            cur = cur.func.value
+        elif isinstance(cur, ast.Call) and isinstance(cur.func, ast.Attribute) and cur.func.attr == "to" and [u(a_) for a_ in cur.args] == ["torch.long"]:
+            shape.append("long")
+            cur = cur.func.value
+        if isinstance(cur, ast.BinOp) and isinstance(cur.op, ast.Mult):
+            sides = [cur.left, cur.right]
+            rnd = [x for x in sides if isinstance(x, ast.Call) and call_name(x) in ("torch.rand_like", "torch.rand")]
+            oth = [x for x in sides if x not in rnd]
+            if len(rnd) == 1 and len(oth) == 1:
+                shape.append("*rand")
+                st_ = oth[0]
+                if isinstance(st_, ast.Call) and call_name(st_) == "torch.stack" and st_.args and isinstance(st_.args[0], (ast.List, ast.Tuple)):
+                    els = st_.args[0].elts
+                    facs = []
+                    for e_ in els:
+                        if isinstance(e_, ast.BinOp) and isinstance(e_.op, ast.Mult):
+                            pr = [x for x in (e_.left, e_.right) if u(x).startswith("prop[")]
+                            ot = [x for x in (e_.left, e_.right) if x not in pr]
+                            if len(pr) == 1 and len(ot) == 1:
+                                facs.append((u(pr[0]), u(ot[0])))
+                    if len(facs) == 2 and [f_[0] for f_ in facs] == ["prop[0]", "prop[1]"] and facs[0][1] == facs[1][1]:
+                        shape.append("stack(prop[0]*len, prop[1]*len)")
+                        lsrc = facs[0][1]
+                    else:
+                        shape.append("stack(?)")
+                else:
+                    shape.append(u(st_)[:40])
+            else:
+                shape.append(u(cur)[:40])
         else:
-            shape.append(u(n)[:40])
-    col.ob("G12", "S4", "_img.py::random_shift::pad=trunc(rand*prop*len)", shape == ["stack(prop[0]*len, prop[1]*len)", "*=rand", "long"],
-           f"the pad amounts are built by {shape}; expected (left, right) = trunc(u * prop * len) with u in [0, 1), "
+            shape.append(u(cur)[:40])
+    col.ob("G12", "S4", "_img.py::random_shift::pad=trunc(rand*prop*len)", shape == ["long", "*rand", "stack(prop[0]*len, prop[1]*len)"],
+           f"the pad amounts are {shape} (outermost first); expected (left, right) = trunc(u * prop * len) with u in [0, 1), "
            f"which bounds each side by prop * len and keeps it a non-negative whole number", "_img.py",
-           steps[0].lineno if steps else rs.line, sample=shape)
+           pvc[0].lineno if pvc else rs.line, sample=shape)
     # the proportion is applied to in_lens (through a float copy)
-    lsrc = None
-    for n in steps:
-        if isinstance(n, ast.Assign) and isinstance(n.value, ast.Call) and call_name(n.value) == "torch.stack":
-            els = n.value.args[0].elts if isinstance(n.value.args[0], (ast.List, ast.Tuple)) else []
-            if els and isinstance(els[0], ast.BinOp) and isinstance(els[0].right, ast.Name):
-                ds = list(rdr.defs_of(els[0].right))
-                lsrc = u(ds[0].value) if len(ds) == 1 and ds[0].value is not None else None
-    col.ob("G12", "S4", "_img.py::random_shift::len-source", lsrc == "in_lens.float()",
+    col.ob("G12", "S4", "_img.py::random_shift::len-source", lsrc in ("in_lens.float()", "in_lens.to(torch.float)"),
            f"the proportion is applied to `{lsrc}`, not to in_lens", "_img.py", rs.line)
     # reported output lengths: the second returned value on the training path = in_lens + pad.sum(0)
     tr = [n for n in own_nodes(rs.node) if isinstance(n, ast.Return) and isinstance(n.value, ast.Tuple) and n not in idret]
     olv = None
-    if tr and isinstance(tr[0].value.elts[1], ast.Name):
-        ds = list(rdr.defs_of(tr[0].value.elts[1]))
-        olv = u(ds[0].value) if len(ds) == 1 and ds[0].value is not None else None
-    col.ob("G12", "S4", "_img.py::random_shift::out_lens=in_lens+pad.sum(0)", olv == f"in_lens + {padname}.sum(0)",
-           f"reported output lengths are `{olv}`", "_img.py", rs.line)
+    if tr and pvc:
+        olv = inl_r.text(tr[0].value.elts[1])
+        padx = inl_r.text(bb.arg_for("pad"))
+    col.ob("G12", "S4", "_img.py::random_shift::out_lens=in_lens+pad.sum(0)", olv is not None and olv.replace(" ", "") in (
+        f"in_lens+{padx}.sum(0)".replace(" ", ""), f"{padx}.sum(0)+in_lens".replace(" ", "")),
+           f"reported output lengths are `{(olv or '')[:120]}`", "_img.py", rs.line)
     # prop validated non-negative (and < 1 for reflect) by the Module
     init = pkg.func("_img::RandomShift.__init__")
     txt = " ".join(u(n) for n in own_nodes(init.node) if isinstance(n, (ast.If, ast.Call)))
@@ -319,13 +342,13 @@ def _slice_arithmetic(ctx: Ctx, cbs, gpb):
                 return c
             if isinstance(v, ast.Call) and call_name(v) == "torch.arange":
                 return "t"
-            if isinstance(v, ast.Call) and isinstance(v.func, ast.Attribute) and v.func.attr == "size" and v.args \
-                    and isinstance(v.args[0], ast.Constant) and v.args[0].value == 1:
+            from sa.astutil import extent_of as _eo
+            if _eo(v) is not None and _eo(v)[1] == 1:
                 return "T"
         if d.kind == "unpack" and isinstance(v, ast.Tuple) and d.slot and len(d.slot) == 1 and d.slot[0] < len(v.elts):
             e = v.elts[d.slot[0]]
-            if isinstance(e, ast.Call) and isinstance(e.func, ast.Attribute) and e.func.attr == "size" and e.args \
-                    and isinstance(e.args[0], ast.Constant) and e.args[0].value == 1:
+            from sa.astutil import extent_of as _eo
+            if _eo(e) is not None and _eo(e)[1] == 1:
                 return "T"
         return None
 
@@ -383,6 +406,21 @@ def _slice_arithmetic(ctx: Ctx, cbs, gpb):
         if d.kind == "unpack" and d.value is kcalls[0] and d.slot and len(d.slot) == 1:
             buf_slot[d.name] = d.slot[0]
 
+    CREATORS = ("new_full", "new_empty", "new_zeros", "full", "empty", "zeros", "full_like", "empty_like", "zeros_like")
+
+    def is_output_buffer(e):
+        """does the tensor `e` derive from a freshly created buffer (the chunk output) rather than from the input only?"""
+        return any((isinstance(c.func, ast.Attribute) and c.func.attr in CREATORS) or call_name(c).split(".")[-1] in CREATORS
+                   for c in rd.derives(e).calls())
+
+    def selection(v):
+        """(base, mask) of `base[mask]` / `base.masked_select(mask)`."""
+        if isinstance(v, ast.Subscript):
+            return v.value, v.slice
+        if isinstance(v, ast.Call) and isinstance(v.func, ast.Attribute) and v.func.attr == "masked_select" and len(v.args) == 1:
+            return v.func.value, v.args[0]
+        return None
+
     def source_role(e):
         if not isinstance(e, ast.Name):
             return None
@@ -392,16 +430,14 @@ def _slice_arithmetic(ctx: Ctx, cbs, gpb):
         d = ds[0]
         if d.kind == "unpack" and d.value is kcalls[0]:
             return {0: "left-buffer-positions", 1: "right-buffer-positions"}.get(d.slot[0])
-        v = d.value
-        if d.kind == "assign" and isinstance(v, ast.Subscript):
-            return "reflect-tail-target"
-        if d.kind == "assign" and isinstance(v, ast.Call) and isinstance(v.func, ast.Attribute) and v.func.attr == "masked_select":
-            return "kept-positions"
+        sel = selection(d.value) if d.kind == "assign" else None
+        if sel is not None:
+            return "reflect-tail-target" if is_output_buffer(sel[0]) else "kept-positions"
         return None
 
     for n in own_nodes(cbs.node):
         if isinstance(n, ast.Call) and isinstance(n.func, ast.Attribute):
-            if n.func.attr == "masked_select" and len(n.args) == 1:
+            if n.func.attr == "masked_select" and len(n.args) == 1 and not is_output_buffer(n.func.value):
                 found["kept-elements"] = (n.args[0], True)
             if n.func.attr == "masked_scatter" and len(n.args) == 2:
                 r = source_role(n.args[1])
@@ -412,7 +448,7 @@ def _slice_arithmetic(ctx: Ctx, cbs, gpb):
                 found[r] = (n.args[0], True)
                 if r == "reflect-tail-target":
                     src = list(rd.defs_of(n.args[1]))[0].value
-                    found["reflect-tail-source"] = (src.slice, True)
+                    found["reflect-tail-source"] = (selection(src)[1], True)
     missing = sorted(set(specs) - set(found))
     if missing:
         raise AnalysisError(f"C09: chunk_by_slices anchors not found: {missing}")
@@ -447,9 +483,10 @@ def _slice_arithmetic(ctx: Ctx, cbs, gpb):
                         v = d.value
                         if d.kind == "unpack" and isinstance(v, ast.Tuple) and d.slot and d.slot[0] < len(v.elts):
                             v = v.elts[d.slot[0]]
-                        if isinstance(v, ast.Call) and isinstance(v.func, ast.Attribute) and v.func.attr == "size" and v.args \
-                                and isinstance(v.args[0], ast.Constant) and u(v.func.value) == first:
-                            gnames.add(v.args[0].value)
+                        from sa.astutil import extent_of
+                        eo = extent_of(v) if v is not None else None
+                        if eo is not None and eo[0] == first:
+                            gnames.add(eo[1])
         only_batch = gnames == {0}
         try:
             term = ex.term(r.value.elts[1])
